@@ -422,6 +422,9 @@ func init() {
 		r := ex.freshSlice(st, sig.Results().At(0).Type(), "hexdec")
 		err := ex.freshErr(st, "hexerr")
 		ex.sc.assert(mkImp(mkEq(err.L[0], "0"), mkAnd(mkEq(r.L[2], mkDiv(slen(a[0].term()), "2")), mkEq(mkMod(slen(a[0].term()), "2"), "0"))))
+		// success is a (deterministic) function of the text
+		ex.sc.fun("hex_ok", []string{sStr}, sBool)
+		ex.sc.assert(mkEq(mkEq(err.L[0], "0"), app("hex_ok", a[0].term())))
 		return Val{T: sig.Results(), Tup: []Val{r, err}}
 	})
 
